@@ -250,6 +250,17 @@ func (s LWs) Close() (err error) {
 	return
 }
 
+// SetLevel implements LevelSettable: printOut asks the selected writer set
+// whether it wants to be told the record's level, so the set forwards the
+// level to every member that does.
+func (s LWs) SetLevel(lvl Level) {
+	for _, w := range s {
+		if x, ok := w.(LevelSettable); ok {
+			x.SetLevel(lvl)
+		}
+	}
+}
+
 func (s LWs) Write(p []byte) (n int, err error) {
 	// TO/DO implement me
 	// /panic("implement me")
@@ -280,6 +291,14 @@ func (s LWs) Write(p []byte) (n int, err error) {
 
 type logwr struct {
 	io.Writer
+}
+
+// SetLevel implements LevelSettable by forwarding to the wrapped writer,
+// so that a plain io.Writer which is LevelSettable is still told the level.
+func (s *logwr) SetLevel(lvl Level) {
+	if x, ok := s.Writer.(LevelSettable); ok {
+		x.SetLevel(lvl)
+	}
 }
 
 func (s *logwr) Close() error {
